@@ -278,6 +278,12 @@ func Apply(l *Live, s *State, ev Event, tpls Templates) *StepOut {
 		n := MkNode(ev.A, parseLabels(ev.B))
 		n.CreationTimestamp = now()
 		must(in.Create(ctx, n))
+	case "fgdelete": // kubectl delete ers --cascade=foreground: the object stays, terminating, until its dependents are gone
+		rs := &v1.ExtendedDaemonSetReplicaSet{}
+		must(in.Get(ctx, types.NamespacedName{Namespace: ns, Name: name}, rs))
+		rs.Finalizers = append(rs.Finalizers, "foregroundDeletion")
+		must(in.Update(ctx, rs))
+		must(in.Delete(ctx, rs))
 	case "delNode":
 		n := &corev1.Node{ObjectMeta: metav1.ObjectMeta{Name: ev.A}}
 		must(client.IgnoreNotFound(in.Delete(ctx, n)))
